@@ -68,6 +68,7 @@ type pvar struct {
 }
 
 type pgen struct {
+	often   bool // second half of the universe: the formerly defect-prone constructs are common
 	rg      *core.Rng
 	b       strings.Builder
 	vars    []pvar
@@ -394,6 +395,13 @@ func (g *pgen) expr(t pty, d int) string {
 // kept in the corpus (their cells are recorded as known findings) but made rare so that they do not mask
 // the rest of the program.
 func (g *pgen) rarely(tag string) bool {
+	if g.often {
+		if g.rg.Chance(1, 3) {
+			g.tag(tag)
+			return true
+		}
+		return false
+	}
 	if g.rg.Chance(1, 40) {
 		g.tag("known:" + tag)
 		return true
@@ -944,7 +952,7 @@ func (g *pgen) closureLoop() {
 func genCell(progIdx uint64, k int) core.Cell {
 	rg := core.NewRng(progIdx*131 + uint64(k)).Sub("progen")
 	name := fmt.Sprintf("c%d_%d", progIdx, k)
-	g := &pgen{rg: rg, tags: map[string]bool{}, cell: name, budget: 14 + rg.Intn(22), ind: 1}
+	g := &pgen{rg: rg, tags: map[string]bool{}, cell: name, budget: 14 + rg.Intn(22), ind: 1, often: progIdx >= 4000}
 	g.vars = append(g.vars, pvar{"gBig", tInt, true}, pvar{"gNeg", tInt, true}, pvar{"gU8", tU8, true}, pvar{"gI64", tI64, true}, pvar{"gF", tF64, true})
 	// a typed variable pool to start from
 	for _, t := range []pty{tInt, tInt, tStr, tS, tArr, tSl, tMap, tPS, tMapB} {
